@@ -30,6 +30,12 @@ class Shims:
                 return v
             return orig(v)
         ST.get_cleaned_token = tok
+        self.math_mods = []
+        import musicxml.xsd.xsdcomplextype as CT
+        for mod in (ST, CT, lib.X()):
+            if 'math' in vars(mod) and type(vars(mod)['math']).__name__ == 'module':
+                self.math_mods.append((mod, mod.math))
+                mod.math = symx.MathShim()
         X = lib.X()
         self.X = X
         self.had_decimal = hasattr(X, 'decimal')
@@ -40,6 +46,8 @@ class Shims:
 
     def __exit__(self, *a):
         self.ST.re, self.ST.get_cleaned_token = self.saved
+        for mod, real in self.math_mods:
+            mod.math = real
         if self.had_decimal:
             self.X.decimal = self.saved_decimal
 
